@@ -223,7 +223,7 @@ package handlers
 //@   safety
 //@   requires a != nil && a.proxyService != nil && w != nil && r != nil && r.URL != nil && trans != nil && pr != nil && pr.requestLogger != nil && pr.stats != nil
 //@   requires allocated(ghost(w).hdr)
-//@   modifies gvar pxCalls, gvar pxEndpoints, gvar pxPath, gvar pxBody, gvar pxErr, gvar pxStarted, gvar lastEncoded, ghost started, ghost status, ghost hdr, ghost(w).hdr[all], ghost encW, ghost remaining, ghost backing, ports.RequestStats.RoutingDecision, object pr.stats, gvar unflushed, pr.hadError
+//@   modifies gvar pxCalls, gvar pxEndpoints, gvar pxPath, gvar pxBody, gvar pxErr, gvar pxStarted, gvar lastEncoded, ghost started, ghost status, ghost hdr, ghost(w).hdr[all], ghost encW, ghost remaining, ghost backing, ports.RequestStats.RoutingDecision, object pr.stats, gvar unflushed, gvar wBytes, pr.hadError
 //@   ensures pxCalls == old(pxCalls) + 1 && pxEndpoints == endpoints && pxPath == old(r.URL.Path) && pxBody == old(ghost(r.Body).remaining)
 //@   ensures res == nil ==> ghost(w).started
 //@   ensures !old(ghost(w).started) && ghost(w).started && ghost(w).status >= 400 ==> pr.hadError
@@ -255,7 +255,7 @@ package handlers
 //@   property C05 C19
 //@   safety
 //@   requires a != nil && w != nil && recorder != nil && recorder.body != nil && pr != nil && pr.requestLogger != nil && trans != nil
-//@   modifies ghost started, ghost status, ghost(w).hdr[all], gvar lastEncoded, ghost encW, gvar unflushed, pr.hadError
+//@   modifies ghost started, ghost status, ghost(w).hdr[all], gvar lastEncoded, ghost encW, gvar unflushed, gvar wBytes, pr.hadError
 //@   ensures pr.hadError
 //@   replay handlers_translation_metrics_success
 //@   ensures ghost(w).started && (!old(ghost(w).started) ==> ghost(w).status == recorder.status)
@@ -264,7 +264,7 @@ package handlers
 //@   property C05
 //@   safety
 //@   requires a != nil && w != nil && recorder != nil && trans != nil
-//@   modifies ghost started, ghost status, ghost(w).hdr[all], gvar unflushed
+//@   modifies ghost started, ghost status, ghost(w).hdr[all], gvar unflushed, gvar wBytes
 //@   ensures res == nil ==> ghost(w).started && (!old(ghost(w).started) ==> ghost(w).status == 200)
 //@   ensures !old(ghost(w).started) && ghost(w).started ==> ghost(w).status == 200
 //@   ensures res != nil && !ghost(w).started ==> ghost(w).hdr["Content-Type"] == old(ghost(w).hdr["Content-Type"])
@@ -348,7 +348,7 @@ package handlers
 //@   safety
 //@   requires a != nil && a.proxyService != nil && w != nil && r != nil && trans != nil && pr != nil && pr.requestLogger != nil && pr.stats != nil
 //@   requires allocated(ghost(w).hdr)
-//@   modifies gvar pxCalls, gvar pxEndpoints, gvar pxPath, gvar pxBody, gvar pxErr, gvar pxStarted, gvar lastEncoded, ghost started, ghost status, ghost hdr, ghost(w).hdr[all], ghost encW, ghost remaining, ghost backing, ports.RequestStats.RoutingDecision, object pr.stats, gvar unflushed, pr.hadError, gvar trStreams
+//@   modifies gvar pxCalls, gvar pxEndpoints, gvar pxPath, gvar pxBody, gvar pxErr, gvar pxStarted, gvar lastEncoded, ghost started, ghost status, ghost hdr, ghost(w).hdr[all], ghost encW, ghost remaining, ghost backing, ports.RequestStats.RoutingDecision, object pr.stats, gvar unflushed, gvar wBytes, pr.hadError, gvar trStreams
 // C05: unless the translated stream was begun, either an error answer has been written here (no endpoints: 503; the
 // backend's own error status relayed) or the client's writer is untouched and the error is returned to the caller
 //@   ensures trStreams == old(trStreams) || trStreams == old(trStreams) + 1
